@@ -54,7 +54,7 @@ type C16Scenario struct {
 
 func drawC16(rt *rapid.T) interface{} {
 	sc := &C16Scenario{}
-	sc.MaxConn = int32(rapid.SampledFrom([]int{1, 2, 3, 8}).Draw(rt, "maxconn"))
+	sc.MaxConn = int32(rapid.SampledFrom([]int{1, 2, 3, 8, 0}).Draw(rt, "maxconn")) // 0: every connection is surplus
 	sc.ReadTO = rapid.SampledFrom([]int{50, 20000}).Draw(rt, "rto")
 	sc.WriteTO = rapid.SampledFrom([]int{30, 8000}).Draw(rt, "wto")
 	sc.BufSize = rapid.SampledFrom([]int{8, 64, 4096}).Draw(rt, "buf")
@@ -523,7 +523,7 @@ func TestC16(t *testing.T) {
 		Run:         runC16,
 		Real:        []string{"stcp.Server (accept loop), stcp.SessionMgr, stcp.EchoMgr / stcp.Echo (count clause), stcp.Session (loopSend, loopReceive, quit, recovery), syncx/pipe/q (simgen-transformed)", "io.ReadFull", "go.uber.org/atomic", "ulog/zap (silenced)"},
 		Stubs:       []string{"net (simnet: listener the harness dials, full-duplex bounded byte pipes, deadlines on the simulated clock, reset / peer close / temporary accept errors)", "time (simtime)", "sync (simsync)", "goroutine scheduling (simrt)"},
-		Rule: "scenario = max connections {1,2,3,8} x read/write timeouts x pipe buffer {8,64,4096} x 1-4 connections, each with 0-4 client frames (echo / swallow / handler error / handler panic), a reading, late-reading or non-reading peer, a handler of the manager's or of the session's own, 0-5 server Sends of 1-9000 bytes with optional pauses of 10 ms-10 s between them, a terminating event (local Close, peer close, reset, silence -> timeout) after a drawn delay and optionally a second racing one, temporary accept errors x scheduler knobs/tape; " +
+		Rule: "scenario = max connections {0,1,2,3,8} (0: every connection is surplus) x read/write timeouts x pipe buffer {8,64,4096} x 1-4 connections, each with 0-4 client frames (echo / swallow / handler error / handler panic), a reading, late-reading or non-reading peer, a handler of the manager's or of the session's own, 0-5 server Sends of 1-9000 bytes with optional pauses of 10 ms-10 s between them, a terminating event (local Close, peer close, reset, silence -> timeout) after a drawn delay and optionally a second racing one, temporary accept errors x scheduler knobs/tape; " +
 			"non-trivial = >=2 tasks and >=1 switch; distinct = distinct event-log hash",
 		Probes:      []string{"clean-local-close", "connection-refused-over-max", "count-reached-max", "net-accept-error-injected", "net-read-timeout", "net-write-timeout", "net-reset", "idle-before-send", "idle-between-sends", "send-of-more-than-4096-bytes", "net-close-returns-error", "session-started-directly", "session-with-own-handler", "late-reader", "echo-manager-run", "net-set-write-deadline-fails", "net-set-read-deadline-fails"},
 		Assumptions: []string{"simnet close semantics: the peer reads what was written before the close, then EOF; a reset drops buffered data", "TLS, OS socket buffers and TCP half-close are out of scope"},
